@@ -30,7 +30,7 @@ THOROUGH_POLICIES = QUICK_POLICIES * 3
 
 
 def shards(tier: str, seed: int) -> List[Dict[str, Any]]:
-    return env_cfg_shards(tier, E.ENVS, HEAVY, prop="C01")
+    return env_cfg_shards(tier, E.ENVS, HEAVY, prop="C01", seed=seed)
 
 
 class SpecMonitor(Monitor):
